@@ -7,6 +7,7 @@ differential run through the real handlers into the real controller with a recor
 -/
 import SamVerif.Proofs.Conf
 import SamVerif.Gen.Conf
+import SamVerif.Model.HcReset
 namespace SamVerif.Props.C08
 open SamVerif.Conf SamVerif.Proofs.Conf
 
@@ -245,6 +246,33 @@ theorem proc_config_update_matches_model :
 
 end SamVerif.Props.C08
 
+namespace SamVerif.Props.C08h
+open SamVerif.HcReset
+
+/-- **An update of the health check is applied whole or not at all, and never crashes** (F-08g, F-08i): a rejected update leaves the
+section in force *and the checker in use* as they were; an accepted one puts the new section in force with the checker it asks for. -/
+theorem reset_all_or_nothing (m : Mon) (new : Section) (h : Consistent m) :
+    (reset m new).2 ≠ .panic ∧
+    ((reset m new).2 = .error → (reset m new).1 = m) ∧
+    ((reset m new).2 = .ok → (reset m new).1.cfg = new ∧ Consistent (reset m new).1) := by
+  unfold reset Consistent kindOf at *
+  by_cases hv : new.valid <;> by_cases hc : new.checker = m.cfg.checker <;> by_cases hb : new.buildable <;> simp_all
+
+/-- before 14b5f8c: a section without a checker could not be updated at all -/
+theorem old_update_without_checker_panics (m : Mon) (new : Section) (hv : new.valid = true) (hn : new.checker = none) :
+    (resetOld m new).2 = .panic := by
+  simp [resetOld, hv, hn]
+
+/-- before b695112: a rejected update left a checker in use that no section asks for -/
+theorem old_rejected_update_swaps_the_checker :
+    let m : Mon := { cfg := { interval := 20, checker := some .redis }, inUse := .redis }
+    let new : Section := { interval := 20, checker := some .atcp, buildable := false }
+    (resetOld m new).2 = .error ∧ (resetOld m new).1.cfg = m.cfg ∧ (resetOld m new).1.inUse = .tcp ∧ ¬ Consistent (resetOld m new).1 := by
+  refine ⟨rfl, rfl, rfl, ?_⟩
+  simp [Consistent, kindOf, resetOld]
+
+end SamVerif.Props.C08h
+
 #print axioms SamVerif.Props.C08.inv_run
 #print axioms SamVerif.Props.C08.converges_valid
 #print axioms SamVerif.Props.C08.converges_none
@@ -253,3 +281,6 @@ end SamVerif.Props.C08
 #print axioms SamVerif.Props.C08.old_order_counterexample
 #print axioms SamVerif.Props.C08.code_matches_model
 #print axioms SamVerif.Props.C08.proc_config_update_matches_model
+#print axioms SamVerif.Props.C08h.reset_all_or_nothing
+#print axioms SamVerif.Props.C08h.old_update_without_checker_panics
+#print axioms SamVerif.Props.C08h.old_rejected_update_swaps_the_checker
